@@ -40,8 +40,10 @@ pub fn run() {
         let a = kv(&line);
         let id: u64 = a["id"].parse().unwrap();
         // plan per route: before,after,drop(0/1),kind(c=callback,x=crossbeam)
+        // plan=none: a router that never gets a route before it is stopped
         let plan: Vec<(u32, u32, bool, bool)> = a["plan"]
             .split(';')
+            .filter(|p| *p != "none")
             .map(|p| {
                 let v: Vec<&str> = p.split(',').collect();
                 (v[0].parse().unwrap(), v[1].parse().unwrap(), v[2] == "1", v[3] == "x" || v[3] == "b" || v[3] == "z")
@@ -50,6 +52,7 @@ pub fn run() {
         // crossbeam routes whose consumer supplies its own BOUNDED sender (capacity 1 for 'b', 0 for 'z') and reads slowly
         let bounded: Vec<Option<usize>> = a["plan"]
             .split(';')
+            .filter(|p| *p != "none")
             .map(|p| match p.split(',').nth(3) {
                 Some("b") => Some(1),
                 Some("z") => Some(0),
